@@ -45,18 +45,25 @@ DropLast(fs) == [fs EXCEPT !.lines = SubSeq(@, 1, Len(@) - 1)]
 SetLast(fs, id, data) == [fs EXCEPT !.lines[Len(fs.lines)] = [line |-> @.line, id |-> id, data |-> data]]
 
 (* allocate the next line of the frame for a data unit with line_offset/field_parity byte b.
-   "new": the line does not ascend and this is the first unit of the packet -> a new frame begins. *)
+   "new": the line does not ascend and this is the first unit of the packet -> a new frame begins.
+   A frame holds at most MaxLines lines (vbi_dvb_demux.sliced[64]); every data unit that yields a line takes
+   a slot, also those with line_offset 0 ("undefined line", EN 301 775 4.5.2: Teletext only).  Room is
+   tested where the slot is taken, i.e. AFTER the decision whether the unit begins a new frame: the first
+   unit of the next frame completes a frame of exactly MaxLines lines; the unit MaxLines + 1 of one frame
+   is a malformed unit ("err": VBI_ERR_SLICED_BUFFER_OVERFLOW) whatever its line number is.             *)
 LineAddr(fs, b, s625) ==
   LET field == 1 - Bits(b, 5, 5)
       off   == b % 32
       fl    == IF off = 0 THEN 0 ELSE (IF field = 1 THEN (IF s625 THEN 313 ELSE 263) ELSE 0) + off
-  IN IF Len(fs.lines) >= MaxLines THEN [r |-> "err", fs |-> fs]
-     ELSE IF fl # 0 THEN
+      full  == Len(fs.lines) >= MaxLines
+  IN IF fl # 0 THEN
             IF fl <= fs.lfr THEN [r |-> IF fs.ndu > 0 THEN "err" ELSE "new", fs |-> fs]
+            ELSE IF full THEN [r |-> "err", fs |-> fs]
             ELSE [r |-> "ok", fs |-> [fs EXCEPT !.lf = field, !.lfl = off, !.lfr = fl, !.ndu = @ + 1,
                                                  !.lines = Append(@, [line |-> fl, id |-> 0, data |-> <<>>])]]
      ELSE IF fs.ldu # 0 /\ field # fs.lf /\ fs.ndu = 0 THEN [r |-> "new", fs |-> fs]
      ELSE IF fs.ldu # 0 /\ field < fs.lf THEN [r |-> "err", fs |-> fs]
+     ELSE IF full THEN [r |-> "err", fs |-> fs]
      ELSE [r |-> "ok", fs |-> [fs EXCEPT !.lf = field, !.lfl = 0, !.ndu = @ + 1,
                                           !.lines = Append(@, [line |-> 0, id |-> 0, data |-> <<>>])]]
 
@@ -254,19 +261,38 @@ TsTake(X, s, p, avail) ==
       [s EXCEPT !.pbuf = @ \o Slice(X, base + 4, frag), !.ptodo = @ - frag,
                 !.tn = avail - TSL, !.tlook = TSH - Mn(avail - TSL, TSH)]
 
+(* continuity_counter (ISO 13818-1 2.4.3.3): 4 bits, incremented with every packet of the PID that carries
+   payload, 15 is followed by 0.  The receiver keeps in `cont` the value expected next (not reduced: header byte
+   b3 + 1, so 17 .. 32; -1 = nothing known) and compares modulo 16 with the counter cc of the packet:
+     "first"  nothing known yet (start, after loss of synchronisation): the packet is accepted
+     "next"   the expected value
+     "dup"    the value of the previous packet of the PID: a duplicate packet (2.4.3.3: a packet may be sent
+              twice) - it is skipped and NOTHING else changes, in particular not the expected value
+     "lost"   any other value: packets were lost; the PES packet and the frame in progress are dropped and the
+              receiver waits for the next PES packet start, expecting cc + 1                                  *)
+ContClass(cont, cc) ==
+  IF cont < 0 THEN "first"
+  ELSE IF cont % 16 = cc THEN "next"
+  ELSE IF (cont + 15) % 16 = cc THEN "dup"
+  ELSE "lost"
+
+(* the transport packet header at buffer offset p (2.4.3.2), in the order the receiver looks at the fields:
+   transport_error_indicator, PID filter, transport_scrambling_control, adaptation_field_control ('10': no
+   payload - skipped before the counter is looked at, the counter does not advance in such packets; '00'/'11':
+   not allowed in a VBI stream, EN 300 472 4.1), continuity_counter, payload_unit_start / PES packet start *)
 TsHeaderAt(X, s, p, avail) ==
   LET base == s.rd - s.tn + p
       b1 == At(X, base + 1)  b3 == At(X, base + 3)
       pid == (b1 % 32) * 256 + At(X, base + 2)
       afc == Bits(b3, 5, 4)
-      ccbad == s.cont < 0 \/ (s.cont % 16) # (b3 % 16)
+      cls == ContClass(s.cont, b3 % 16)
   IN IF Bits(b1, 7, 7) = 1 THEN TsDropPes(s, avail)                 \* transport_error_indicator
      ELSE IF pid # s.pid THEN TsNextPacket(s, avail)
      ELSE IF Bits(b3, 7, 6) # 0 THEN TsDropPes(s, avail)            \* scrambled
      ELSE IF afc = 2 THEN TsNextPacket(s, avail)                    \* adaptation field only
      ELSE IF afc # 1 THEN TsDropPes(s, avail)
-     ELSE IF s.cont >= 0 /\ ccbad /\ ((s.cont - 1) % 16) = (b3 % 16) THEN TsNextPacket(s, avail)   \* duplicate
-     ELSE IF s.cont >= 0 /\ ccbad THEN TsDropPes([s EXCEPT !.cont = b3 + 1], avail)               \* packets lost
+     ELSE IF cls = "dup" THEN TsNextPacket(s, avail)
+     ELSE IF cls = "lost" THEN TsDropPes([s EXCEPT !.cont = b3 + 1], avail)
      ELSE LET s1 == [s EXCEPT !.cont = b3 + 1] IN
           IF s1.ptodo = 0 THEN
               IF ~StartCode(X, base + 4) \/ At(X, base + 7) # 189 \/ PLen(X, base + 4) < MinPL
